@@ -119,8 +119,35 @@ rw_contract("RewriteAnonymousTypedDictToDict.rewrite_anonymous_TypedDict", "type
                    "opt-covered": "forall(td_opt(typed_dict), lambda k: forall_val(lambda v: implies(mem(v, lookup(td_opt(typed_dict), k)), mem(v, nth(args(result), 1)))))",
                    "shape": "kind(result) is K_Dict and (nth(args(result), 0) is STR or nth(args(result), 0) is ANY)"})
 rw_contract("RewriteGenerator.rewrite_Generator", "typ", kinds=["Generator"])
-rw_contract("RewriteMostSpecificCommonBase.rewrite_Union", "union", kinds=["Union"], mode="assumed",
-            note="bounded in this round (runtime/props/c07.py): _compute_bases / functools.reduce over MRO chains")
+_SUPER = "forall_val(lambda v: implies(mem(v, {c}), mem(v, {x})))"
+contract(P + "RewriteMostSpecificCommonBase._compute_bases", props=["C07"], theories=TH, params={"self": "Rewriter", "klass": "Ty"}, result="Seq[Ty]",
+         requires={"class": "is_class(klass)"},
+         # every listed base is a plain class that admits every instance of klass (klass itself comes last)
+         ensures={"post:bases": "forall(result, lambda x: is_class(x) and (kind(x) is K_Class or x is klass) and " + _SUPER.format(c="klass", x="x") + ")"},
+         loops={0: {"inv": {"cur": "is_class(curr_klass) and (kind(curr_klass) is K_Class or curr_klass is klass) and " + _SUPER.format(c="klass", x="curr_klass"),
+                            "bases": "forall(bases, lambda x: is_class(x) and (kind(x) is K_Class or x is klass) and " + _SUPER.format(c="klass", x="x") + ")"},
+                    "decreases": "cdepth(curr_klass)"},
+                "tags": {"bases": "Seq[Ty]", "curr_klass": "Ty"}})
+contract(P + "RewriteMostSpecificCommonBase._merge_common_bases", props=["C07"], theories=TH,
+         params={"self": "Rewriter", "first_bases": "Seq[Ty]", "second_bases": "Seq[Ty]"}, result="Seq[Ty]",
+         ensures={"post:common": "forall(result, lambda x: has(first_bases, x) and has(second_bases, x))"},
+         loops={0: {"iter": "zip(first_bases, second_bases)", "inv": {"common": "forall(merged_bases, lambda x: has(first_bases, x) and has(second_bases, x))"}},
+                "tags": {"merged_bases": "Seq[Ty]"}})
+rw_contract("RewriteMostSpecificCommonBase.rewrite_Union", "union", kinds=["Union"],
+            # C07 trigger: only unions of plain classes are replaced by a common base
+            extra_ens={"post:trigger": "implies(result is not union, forall(args(union), lambda m: is_class(m)))"},
+            hints={"each-has": "implies(result is not union, forall(range_(0, len(args(union))), lambda j: forall_v(lambda x: implies(has(nth(L_all_bases, j), x), is_class(x) and (kind(x) is K_Class or x is nth(args(union), j)) and "
+                               + _SUPER.format(c="nth(args(union), j)", x="x") + "))))",
+                   "res-in-all": "implies(result is not union, forall(range_(0, len(args(union))), lambda j: has(nth(L_all_bases, j), result)))",
+                   "res-super": "implies(result is not union, forall(range_(0, len(args(union))), lambda j: " + _SUPER.format(c="nth(args(union), j)", x="result") + "))",
+                   "res-class": "implies(result is not union, kind(result) is K_Class or exists(args(union), lambda m: m is result))"},
+            loops={0: {"iter": "klasses",
+                       "inv": {"len": "len(all_bases) == _i",
+                               "each": "forall(range_(0, _i), lambda j: forall(nth(all_bases, j), lambda x: is_class(x) and (kind(x) is K_Class or x is nth(args(union), j)) and "
+                                       + _SUPER.format(c="nth(args(union), j)", x="x") + "))"}},
+                   # functools.reduce(self._merge_common_bases, all_bases): everything accumulated so far is a base of each of the first _i members
+                   "reduce0": {"inv": {"common": "forall(_acc, lambda x: forall(range_(0, _i), lambda j: has(nth(_seq, j), x)))"}},
+                   "tags": {"all_bases": "Seq[Seq[Ty]]"}})
 rw_contract("NoOpRewriter.rewrite", "typ", rank=2)
 rw_contract("ChainedRewriter.rewrite", "typ", rank=3, in_scc=False, extra_req={"members": "forall(self.rewriters, lambda r: r is not None)", },
             loops={0: {"iter": "self.rewriters", "inv": {"widen": "forall_val(lambda v: implies(mem(v, old_typ()), mem(v, typ)))",
